@@ -365,6 +365,30 @@ def step (v : Vol) (s : St) : Op → St × Res
 
 def run (v : Vol) (s : St) (ops : List Op) : St := ops.foldl (fun s op => (step v s op).1) s
 
+/-! ## `removetree`: a compound call of pyfatfs' own, as the primitive calls it makes -/
+
+/-- entries of directory `id`, in entry order -/
+def children (nodes : List Node) (id : Nat) : List Node := nodes.filter (fun n => n.parent == id)
+
+/-- `PyFatFS.removetree(path)` on the directory at `loc`: `_remove` every file of the directory, recurse into
+    every sub-directory, then `removedir` the directory itself (the root stays).  The entries are those of the
+    tree at the time of the call (what `get_entries()` returns when each level is entered: removals elsewhere
+    do not change them). -/
+def expandTree : Nat → List Node → List Nat → Loc → List Op
+  | 0, _, _, _ => []
+  | fuel + 1, nodes, path, loc =>
+    let kids := children nodes loc.id
+    (kids.filter (fun n => !n.isDir)).map (fun f => Op.remove (path ++ [f.key])) ++
+    (kids.filter (fun n => n.isDir)).flatMap (fun d => expandTree fuel nodes (path ++ [d.key]) (.node d)) ++
+    (match loc with | .root => [] | .node _ => [Op.removedir path])
+
+def removetree (v : Vol) (s : St) (path : List Nat) : St × Res :=
+  match resolve s.nodes path with
+  | none => (s, .err .notFound)
+  | some loc =>
+    if !loc.isDir then (s, .err .dirExpected)
+    else (run v s (expandTree (s.nodes.length + 1) s.nodes path loc), .ok true)
+
 /-! ## the reference filesystem: a set of paths -/
 
 structure SEnt where
